@@ -7,7 +7,7 @@ namespace Mk
 /-! ## the model only looks at stripped lines -/
 
 theorem pinBody_congr (sepC : Char) (sepP : Str) (idx nCol : Nat) (ls ls' : List Str)
-    (h : ls.map strip = ls'.map strip) :
+    (h : ls.map chomp = ls'.map chomp) :
     pinBody sepC sepP idx nCol ls = pinBody sepC sepP idx nCol ls' := by
   cases ls with
   | nil =>
@@ -19,16 +19,16 @@ theorem pinBody_congr (sepC : Char) (sepP : Str) (idx nCol : Nat) (ls ls' : List
     | nil => simp at h
     | cons l2' more' =>
       simp only [List.map_cons, List.cons.injEq] at h
-      have hm : more.map (fun line => convertLine sepC sepP idx nCol (strip line) ++ ['\n'])
-          = more'.map (fun line => convertLine sepC sepP idx nCol (strip line) ++ ['\n']) := by
-        have e : ∀ m : List Str, m.map (fun line => convertLine sepC sepP idx nCol (strip line) ++ ['\n'])
-            = (m.map strip).map (fun s => convertLine sepC sepP idx nCol s ++ ['\n']) := by
+      have hm : more.map (fun line => convertLine sepC sepP idx nCol (chomp line) ++ ['\n'])
+          = more'.map (fun line => convertLine sepC sepP idx nCol (chomp line) ++ ['\n']) := by
+        have e : ∀ m : List Str, m.map (fun line => convertLine sepC sepP idx nCol (chomp line) ++ ['\n'])
+            = (m.map chomp).map (fun s => convertLine sepC sepP idx nCol s ++ ['\n']) := by
           intro m; simp [List.map_map, Function.comp_def]
         rw [e more, e more', h.2]
       simp only [pinBody, h.1, hm]
 
 theorem pinToTsvLines_congr (sepC : Char) (sepP : Str) (ls ls' : List Str)
-    (h : ls.map strip = ls'.map strip) :
+    (h : ls.map chomp = ls'.map chomp) :
     pinToTsvLines sepC sepP ls = pinToTsvLines sepC sepP ls' := by
   cases ls with
   | nil =>
@@ -42,7 +42,7 @@ theorem pinToTsvLines_congr (sepC : Char) (sepP : Str) (ls ls' : List Str)
       simp only [List.map_cons, List.cons.injEq] at h
       simp only [pinToTsvLines, pinAfterHeader, h.1, pinBody_congr sepC sepP _ _ r r' h.2]
 
-theorem map_strip_addNl (ls : List Str) (tr : Bool) : (addNl ls tr).map strip = ls.map strip := by
+theorem map_strip_addNl (ls : List Str) (tr : Bool) : (addNl ls tr).map chomp = ls.map chomp := by
   induction ls with
   | nil => rfl
   | cons l r ih =>
@@ -50,10 +50,10 @@ theorem map_strip_addNl (ls : List Str) (tr : Bool) : (addNl ls tr).map strip = 
     | nil =>
       cases tr
       · simp [addNl]
-      · simp [addNl, strip_append_nl]
+      · simp [addNl, chomp_append_nl]
     | cons l' r =>
       simp only [addNl, List.map_cons] at ih ⊢
-      rw [ih, strip_append_nl]
+      rw [ih, chomp_append_nl]
 
 theorem pinToTsvLines_addNl (sepC : Char) (sepP : Str) (ls : List Str) (tr : Bool) :
     pinToTsvLines sepC sepP (addNl ls tr) = pinToTsvLines sepC sepP ls :=
@@ -62,7 +62,7 @@ theorem pinToTsvLines_addNl (sepC : Char) (sepP : Str) (ls : List Str) (tr : Boo
 /-! ## rows -/
 
 structure RowWF (sepC : Char) (idx nCol : Nat) (r : PinRow) : Prop where
-  padL : padOk r.padL = true
+  padL : r.padL = []
   padR : padOk r.padR = true
   pre : r.pre.length = idx
   prots : r.prots ≠ []
@@ -78,12 +78,12 @@ theorem rowOk_iff (sepC : Char) (idx nCol : Nat) (r : PinRow) :
   constructor
   · intro h
     simp only [rowOk, Bool.and_eq_true, beq_iff_eq, Bool.not_eq_true', List.isEmpty_eq_false_iff,
-      List.all_eq_true, fieldOk_iff] at h
+      List.all_eq_true, fieldOk_iff, List.isEmpty_iff] at h
     obtain ⟨⟨⟨⟨⟨⟨h1, h2⟩, h3⟩, h4⟩, h5⟩, h6⟩, h7⟩ := h
     exact ⟨h1, h2, h3, h4, h5, h6, h7⟩
   · intro h
     simp only [rowOk, Bool.and_eq_true, beq_iff_eq, Bool.not_eq_true', List.isEmpty_eq_false_iff,
-      List.all_eq_true, fieldOk_iff]
+      List.all_eq_true, fieldOk_iff, List.isEmpty_iff]
     exact ⟨⟨⟨⟨⟨⟨h.padL, h.padR⟩, h.pre⟩, h.prots⟩, h.post⟩, h.fields⟩, h.edge⟩
 
 theorem RowWF.fields_ne_nil {sepC : Char} {idx nCol : Nat} {r : PinRow} (h : RowWF sepC idx nCol r) :
@@ -94,14 +94,17 @@ theorem RowWF.fields_ne_nil {sepC : Char} {idx nCol : Nat} {r : PinRow} (h : Row
   | nil => exact absurd hp this
   | cons a b => simp
 
-theorem RowWF.strip_line {sepC : Char} {idx nCol : Nat} {r : PinRow} (h : RowWF sepC idx nCol r) :
-    strip (r.line sepC) = joinWith [sepC] r.fields :=
-  strip_padded_line [sepC] r.padL r.padR r.fields h.padL h.padR h.edge
+theorem RowWF.strip_line {sepC : Char} {idx nCol : Nat} {r : PinRow} (h : RowWF sepC idx nCol r)
+    (hs : isEol sepC = false) : chomp (r.line sepC) = joinWith [sepC] r.fields := by
+  unfold PinRow.line
+  rw [h.padL, List.nil_append]
+  exact chomp_padded_line sepC r.padR r.fields hs h.padR (fun f hf => (h.fields f hf).2) h.edge
 
-/-- one PSM line: padding stripped, proteins folded, other fields unchanged -/
+/-- one PSM line: terminator removed, proteins folded, other fields unchanged -/
 theorem RowWF.convertLine {sepC : Char} {idx nCol : Nat} {r : PinRow} (h : RowWF sepC idx nCol r)
-    (sepP : Str) : convertLine sepC sepP idx nCol (strip (r.line sepC)) = r.tsvLine sepC sepP := by
-  rw [h.strip_line]
+    (hs : isEol sepC = false)
+    (sepP : Str) : convertLine sepC sepP idx nCol (chomp (r.line sepC)) = r.tsvLine sepC sepP := by
+  rw [h.strip_line hs]
   unfold Mk.convertLine
   rw [splitOn_joinWith sepC r.fields h.fields_ne_nil (fun f hf => (h.fields f hf).1)]
   have e1 : idx = r.pre.length := h.pre.symm
@@ -117,42 +120,48 @@ theorem RowWF.no_nl {sepC : Char} {idx nCol : Nat} {r : PinRow} (h : RowWF sepC 
   unfold PinRow.line at hm
   simp only [List.mem_append] at hm
   rcases hm with (hm | hm) | hm
-  · exact ((padOk_iff _).mp h.padL).2 hm
+  · rw [h.padL] at hm; simp at hm
   · rcases mem_joinWith _ _ _ hm with h' | ⟨f, hf, hc⟩
     · simp at h'; exact hs h'.symm
     · exact (h.fields f hf).2 hc
   · exact ((padOk_iff _).mp h.padR).2 hm
 
-theorem RowWF.line_ne_nil {sepC : Char} {idx nCol : Nat} {r : PinRow} (h : RowWF sepC idx nCol r) :
-    r.line sepC ≠ [] := by
-  intro e
-  have h1 := (edgeOk_joinWith [sepC] r.fields h.edge).1
-  obtain ⟨c, t, ht, _⟩ := (headNonSpace_iff _).mp h1
-  unfold PinRow.line at e
-  rw [ht] at e
-  simp at e
-
 /-! ## the document -/
 
 structure DocWF (sepC : Char) (d : PinDoc) : Prop where
   sep : sepC ≠ '\n'
-  hpadL : padOk d.hpadL = true
+  hpadL : d.hpadL = []
   hpadR : padOk d.hpadR = true
   cols : ∀ f ∈ d.cols, sepC ∉ f ∧ '\n' ∉ f
   edge : edgeOk d.cols = true
   proteins : proteinsName ∈ d.cols
-  dd : ∀ x, d.dd = some x → '\n' ∉ x ∧ isDD (strip x) = true
+  dd : ∀ x, d.dd = some x → '\n' ∉ x ∧ isDD (chomp x) = true
   rows : ∀ r ∈ d.rows, RowWF sepC (d.cols.idxOf proteinsName) d.cols.length r
   nonempty : d.dd.isSome = true ∨ d.rows ≠ []
   first : d.dd.isSome = true ∨ ∃ r rs, d.rows = r :: rs ∧ isDD (joinWith [sepC] r.fields) = false
+  sepCR : sepC ≠ '\r'
+  last_ok : d.trailingNl = true ∨ (d.lines sepC).getLast? ≠ some []
+
+theorem lastLineOk_iff (sepC : Char) (d : PinDoc) :
+    lastLineOk sepC d = true ↔ (d.trailingNl = true ∨ (d.lines sepC).getLast? ≠ some []) := by
+  unfold lastLineOk
+  cases d.trailingNl
+  · cases h : (d.lines sepC).getLast? with
+    | none => simp
+    | some l => simp
+  · simp
+
+theorem DocWF.sepEol {sepC : Char} {d : PinDoc} (h : DocWF sepC d) : isEol sepC = false :=
+  (isEol_false_iff sepC).mpr ⟨h.sepCR, h.sep⟩
 
 theorem wf_iff (sepC : Char) (d : PinDoc) : d.wf sepC = true ↔ DocWF sepC d := by
   constructor
   · intro h
     simp only [PinDoc.wf, Bool.and_eq_true, bne_iff_ne, ne_eq, List.all_eq_true, fieldOk_iff,
-      List.contains_iff_mem, Bool.or_eq_true, Bool.not_eq_true', List.isEmpty_eq_false_iff, rowOk_iff] at h
-    obtain ⟨⟨⟨⟨⟨⟨⟨⟨⟨h1, h2⟩, h3⟩, h4⟩, h5⟩, h6⟩, h7⟩, h8⟩, h9⟩, h10⟩ := h
-    refine ⟨h1, h2, h3, h4, h5, h6, ?_, h8, h9, ?_⟩
+      List.contains_iff_mem, Bool.or_eq_true, Bool.not_eq_true', List.isEmpty_eq_false_iff, rowOk_iff,
+      List.isEmpty_iff, lastLineOk_iff] at h
+    obtain ⟨⟨⟨⟨⟨⟨⟨⟨⟨⟨⟨h1, h2⟩, h3⟩, h4⟩, h5⟩, h6⟩, h7⟩, h8⟩, h9⟩, h10⟩, h11⟩, h12⟩ := h
+    refine ⟨h1, h2, h3, h4, h5, h6, ?_, h8, h9, ?_, h11, h12⟩
     · intro x hx
       rw [hx] at h7
       simpa [ddOk] using h7
@@ -165,8 +174,10 @@ theorem wf_iff (sepC : Char) (d : PinDoc) : d.wf sepC = true ↔ DocWF sepC d :=
         | cons r rs => rw [hr] at h'; exact ⟨r, rs, rfl, by simpa using h'⟩
   · intro h
     simp only [PinDoc.wf, Bool.and_eq_true, bne_iff_ne, ne_eq, List.all_eq_true, fieldOk_iff,
-      List.contains_iff_mem, Bool.or_eq_true, Bool.not_eq_true', List.isEmpty_eq_false_iff, rowOk_iff]
-    refine ⟨⟨⟨⟨⟨⟨⟨⟨⟨h.sep, h.hpadL⟩, h.hpadR⟩, h.cols⟩, h.edge⟩, h.proteins⟩, ?_⟩, h.rows⟩, h.nonempty⟩, ?_⟩
+      List.contains_iff_mem, Bool.or_eq_true, Bool.not_eq_true', List.isEmpty_eq_false_iff, rowOk_iff,
+      List.isEmpty_iff, lastLineOk_iff]
+    refine ⟨⟨⟨⟨⟨⟨⟨⟨⟨⟨⟨h.sep, h.hpadL⟩, h.hpadR⟩, h.cols⟩, h.edge⟩, h.proteins⟩, ?_⟩, h.rows⟩, h.nonempty⟩, ?_⟩,
+      h.sepCR⟩, h.last_ok⟩
     · cases hd : d.dd with
       | none => rfl
       | some x => have := h.dd x hd; simpa [ddOk] using this
@@ -179,22 +190,28 @@ theorem DocWF.cols_ne_nil {sepC : Char} {d : PinDoc} (h : DocWF sepC d) : d.cols
   intro e; have := h.proteins; rw [e] at this; simp at this
 
 theorem DocWF.strip_header {sepC : Char} {d : PinDoc} (h : DocWF sepC d) :
-    strip (d.headerLine sepC) = joinWith [sepC] d.cols :=
-  strip_padded_line [sepC] d.hpadL d.hpadR d.cols h.hpadL h.hpadR h.edge
+    chomp (d.headerLine sepC) = joinWith [sepC] d.cols := by
+  unfold PinDoc.headerLine
+  rw [h.hpadL, List.nil_append]
+  exact chomp_padded_line sepC d.hpadR d.cols h.sepEol h.hpadR (fun f hf => (h.cols f hf).2) h.edge
+
+theorem DocWF.chomp_cols {sepC : Char} {d : PinDoc} (h : DocWF sepC d) :
+    chomp (joinWith [sepC] d.cols) = joinWith [sepC] d.cols :=
+  chomp_joined_line sepC d.cols h.sepEol (fun f hf => (h.cols f hf).2) h.edge
 
 theorem DocWF.body {sepC : Char} {d : PinDoc} (h : DocWF sepC d) (sepP : Str) :
     pinBody sepC sepP (d.cols.idxOf proteinsName) d.cols.length (d.dd.toList ++ d.rows.map (PinRow.line sepC))
       = .ok (d.rows.map (fun r => r.tsvLine sepC sepP ++ ['\n'])) := by
   have hrows : ∀ rs : List PinRow, (∀ r ∈ rs, r ∈ d.rows) →
       (rs.map (PinRow.line sepC)).map
-        (fun line => convertLine sepC sepP (d.cols.idxOf proteinsName) d.cols.length (strip line) ++ ['\n'])
+        (fun line => convertLine sepC sepP (d.cols.idxOf proteinsName) d.cols.length (chomp line) ++ ['\n'])
       = rs.map (fun r => r.tsvLine sepC sepP ++ ['\n']) := by
     intro rs hrs
     rw [List.map_map]
     apply List.map_congr_left
     intro r hr
     simp only [Function.comp]
-    rw [(h.rows r (hrs r hr)).convertLine sepP]
+    rw [(h.rows r (hrs r hr)).convertLine h.sepEol sepP]
   cases hd : d.dd with
   | some x =>
     have hx := (h.dd x hd).2
@@ -204,8 +221,8 @@ theorem DocWF.body {sepC : Char} {d : PinDoc} (h : DocWF sepC d) (sepP : Str) :
     rcases h.first with h' | ⟨r, rs, hr, hdd⟩
     · rw [hd] at h'; simp at h'
     · have hw := h.rows r (by rw [hr]; simp)
-      have hs := hw.strip_line
-      have hc := hw.convertLine sepP
+      have hs := hw.strip_line h.sepEol
+      have hc := hw.convertLine h.sepEol sepP
       rw [hs] at hc
       rw [hr]
       simp only [Option.toList_none, List.nil_append, List.map_cons, pinBody, secondOut, hs, hdd]
@@ -222,7 +239,7 @@ theorem DocWF.lines_no_nl {sepC : Char} {d : PinDoc} (h : DocWF sepC d) :
     unfold PinDoc.headerLine at hm
     simp only [List.mem_append] at hm
     rcases hm with (hm | hm) | hm
-    · exact ((padOk_iff _).mp h.hpadL).2 hm
+    · rw [h.hpadL] at hm; simp at hm
     · rcases mem_joinWith _ _ _ hm with h' | ⟨f, hf, hc⟩
       · simp at h'; exact h.sep h'.symm
       · exact (h.cols f hf).2 hc
@@ -233,34 +250,6 @@ theorem DocWF.lines_no_nl {sepC : Char} {d : PinDoc} (h : DocWF sepC d) :
 theorem isDD_ne_nil (l : Str) (h : isDD l = true) : l ≠ [] := by
   intro e; subst e; revert h; decide
 
-theorem strip_nil : strip [] = [] := rfl
-
-theorem DocWF.last_ne_nil {sepC : Char} {d : PinDoc} (h : DocWF sepC d) :
-    (d.lines sepC).getLast? ≠ some [] := by
-  unfold PinDoc.lines
-  rcases List.eq_nil_or_concat d.rows with e | ⟨rs, r, e⟩
-  · -- no rows: there is a DefaultDirection line and it is the last one
-    rw [e]
-    rcases h.nonempty with h' | h'
-    · cases hd : d.dd with
-      | none => rw [hd] at h'; simp at h'
-      | some x =>
-        simp only [Option.toList_some, List.map_nil, List.append_nil]
-        have := (h.dd x hd).2
-        intro e'
-        simp at e'
-        subst e'
-        revert this; decide
-    · exact absurd e h'
-  · rw [List.concat_eq_append] at e
-    rw [e]
-    have hw := h.rows r (by rw [e]; simp)
-    have : (d.headerLine sepC :: (d.dd.toList ++ List.map (PinRow.line sepC) (rs ++ [r])))
-        = (d.headerLine sepC :: (d.dd.toList ++ List.map (PinRow.line sepC) rs)) ++ [r.line sepC] := by simp
-    rw [this, List.getLast?_append]
-    simp only [List.getLast?_singleton, Option.some_or, ne_eq, Option.some.injEq]
-    exact hw.line_ne_nil
-
 theorem flatten_out (H : Str) (ls : List Str) :
     ((H ++ ['\n']) :: ls.map (· ++ ['\n'])).flatten = renderLines (H :: ls) true := by
   rw [renderLines_true]; rfl
@@ -269,10 +258,10 @@ theorem flatten_out (H : Str) (ls : List Str) :
 theorem DocWF.pinToTsv {sepC : Char} {d : PinDoc} (h : DocWF sepC d) (sepP : Str) :
     pinToTsv sepC sepP (renderPin sepC d) = .ok (renderTsv sepC sepP d) := by
   unfold Mk.pinToTsv renderPin
-  rw [pyLines_renderLines _ _ h.lines_no_nl (Or.inr h.last_ne_nil), pinToTsvLines_addNl]
+  rw [pyLines_renderLines _ _ h.lines_no_nl h.last_ok, pinToTsvLines_addNl]
   unfold PinDoc.lines
   simp only [pinToTsvLines, pinAfterHeader]
-  rw [h.strip_header, strip_joined_line _ _ h.edge,
+  rw [h.strip_header, h.chomp_cols,
     splitOn_joinWith sepC d.cols h.cols_ne_nil (fun f hf => (h.cols f hf).1)]
   have hc : d.cols.contains proteinsName = true := by simpa using h.proteins
   rw [if_pos hc, h.body sepP]
